@@ -16,12 +16,14 @@ open XmppModel XmppModel.Xml XmppModel.Encoder
 /-! ### Tie to the source: lock discipline of every function that touches the output encoder -/
 
 /-- every function of the package that mentions `….out.e`, with how it is protected:
-`locked` = first statement `s.out.Lock()`, second `defer s.out.Unlock()`; `holder` = a method
+`locked` = first statement `s.out.Lock()`, second `defer s.out.Unlock()`; `probe` = only
+inspects the encoder's state through a type assertion (its callers are locked, see
+`C05_gen_all_locked`); `holder` = a method
 of `lockWriteCloser`, which only `TokenWriter` creates; `setup` = `negotiateSession` / `writeStreamFeatures`
 (stream negotiation: no other goroutine has the session yet) -/
 def expectedFns : List (String × String) :=
   [("Encode", "locked"), ("EncodeElement", "locked"), ("lockWriteCloser.EncodeToken", "holder"),
-   ("lockWriteCloser.Flush", "holder"), ("negotiateSession", "setup"), ("send", "locked"),
+   ("lockWriteCloser.Flush", "holder"), ("negotiateSession", "setup"), ("outputBroken", "probe"), ("send", "locked"),
    ("sendError", "locked"), ("writeStreamFeatures", "setup")]
 
 theorem C05_gen_lock_discipline : Generated.C05.transmitFns = some expectedFns := by decide
@@ -33,8 +35,25 @@ theorem C05_gen_tokenwriter_holds_lock :
 
 /-- no function writes to the encoder without the lock -/
 theorem C05_gen_all_locked :
-    ∃ t, Generated.C05.transmitFns = some t ∧ ∀ p ∈ t, p.2 = "locked" ∨ p.2 = "holder" ∨ p.2 = "setup" := by
-  refine ⟨_, C05_gen_lock_discipline, by decide⟩
+    ∃ t c, Generated.C05.transmitFns = some t ∧ Generated.C05.probeCallers = some c ∧
+      (∀ p ∈ t, p.2 = "locked" ∨ p.2 = "holder" ∨ p.2 = "setup" ∨ p.2 = "probe") ∧
+      (∀ p ∈ c, p.2 = "locked" ∨ p.2 = "holder") := by
+  refine ⟨_, _, C05_gen_lock_discipline, rfl, by decide, by decide⟩
+
+/-- the encoder's state can only change in `EncodeToken` (a `Flush` of its own, or any other
+method, could move the depth counter behind the model's back: `C05_flush_transparent` rests
+on this) -/
+theorem C05_gen_encoder_methods : Generated.C05.stanzaEncoderMethods = some ["EncodeToken"] := by decide
+
+/-- every one-shot transmit entry point refuses to write when the previous write was abandoned
+inside an element (hypothesis `guard = true` of the fault theorems) -/
+theorem C05_gen_broken_guard :
+    Generated.C05.brokenGuard = some [("Encode", true), ("EncodeElement", true), ("send", true)] := by decide
+
+/-- `internal/marshal` keeps no state between calls: no package-level variable (a pooled or
+cached buffer shared between calls and sessions is how one call's content ends up in
+another's element) -/
+theorem C05_gen_marshal_stateless : Generated.C05.marshalGlobals = some [] := by decide
 
 /-! ### The stanza encoder changes exactly what the property allows -/
 
@@ -369,9 +388,9 @@ theorem C05_fault_inside_unguarded (cfg : Cfg) (fresh : String) (n m n' m' : Nam
 /-- **the repaired code**: a session whose last transmit call stopped inside an element refuses
 the next one (nothing more is written) … -/
 theorem C05_fault_inside_guarded (cfg : Cfg) (fresh : String) (n m : Name) (as : List Attr)
-    (body us : List Tok) (hb : balanced body = true)
+    (body us : List Tok) (hb : balanced body = true) (refusedTok : Bool)
     (k : Nat) (hk : 0 < k) (hk2 : k < (Tok.start n as :: body ++ [Tok.stop m]).length) :
-    (faultThenNext true cfg fresh (Tok.start n as :: body ++ [Tok.stop m]) k us).2 = .refused := by
+    (faultThenNext true cfg fresh (Tok.start n as :: body ++ [Tok.stop m]) k us refusedTok).2 = .refused := by
   have hbd : depthAfter 0 body = some 0 := by simpa [balanced] using hb
   obtain ⟨r, hr⟩ := prefix_open n m as body hbd k hk hk2
   have hfst : (encode cfg fresh 0 ((Tok.start n as :: body ++ [Tok.stop m]).take k)).1 = ((r + 1 : Nat) : Int) := by
@@ -380,6 +399,11 @@ theorem C05_fault_inside_guarded (cfg : Cfg) (fresh : String) (n m : Name) (as :
   have hne : ¬ ((r : Int) + 1 = 0) := by omega
   simp only [faultThenNext, hfst, Bool.true_and]
   simp [hne]
+
+/-- … and likewise, wherever it happened, when the writer underneath refused a token -/
+theorem C05_fault_refused_token_guarded (cfg : Cfg) (fresh : String) (ts us : List Tok) (k : Nat) :
+    (faultThenNext true cfg fresh ts k us true).2 = .refused := by
+  simp [faultThenNext]
 
 /-- … while a call that failed before handing anything to the encoder, or after its whole
 element, leaves the session usable: the next call emits its whole element, completed as a top
